@@ -119,7 +119,7 @@ pub fn run() {{
     {{ let a = {mk('a', 3)}; let r = -&a; let q = !a; ::dxrt::ev!("op", "o" => "neg_not", "r" => dump(&r), "q" => dump(&q)); }}
 }}"""
         out.append({"src": "ops", "traits": ops.split(", "), "code": code})
-    for s in [x for x in p_c07.core(None) if x["kind"] == "enum" and not x.get("copy")][-2:]:
+    for s in [x for x in p_c07.core(None) if x["kind"] == "enum" and not x.get("copy") and not x.get("names")][-2:]:
         out.append({"src": "clone", "traits": ["Clone"], "code": p_c07.render(s)})
     out.append({"src": "debug", "traits": ["Debug"], "code": p_c10.render(p_c10.core()[-1])})
     rng = random.Random(5)
